@@ -301,13 +301,24 @@ def c14(tier, seed, t0):
 
 @register("C07")
 def c07(tier, seed, t0):
-    agg, HE = edits("C07", tier, seed, 150 if tier == "quick" else 1800)
-    return R.report("C07", HE.HNAME, tier, seed, agg, t0, dict(pipeline=EDIT_BOUNDS,
-                    monitor="test-side wrapper around Context.pop_tokens: (jump, tokens before, len(history)) per main-loop iteration",
-                    asserted=["every iteration consumes >= 1 token", "segments are consecutive and cover the stream when run() returns",
-                              "an unrecognised token (pop_tokens(1) without a matching rule) makes the run end with CParsingError when debug == 0 "
-                              "-- also when it is the last thing in a file without trailing newline"]),
-                    functions=PIPE_FUNCS, assumptions=["a statement is 'unrecognised' iff pop_tokens is called without a new history entry"])
+    from harness import conform as HC
+    agg1, HE = edits("C07", tier, seed, 110 if tier == "quick" else 1800)
+    n = 24 if tier == "quick" else 300
+    res = R.run_pool(HC.HNAME, HC.chunks(tier, n), 80 if tier == "quick" else 1200, seed, tier,
+                     extra=dict(prop="C07", sample_rate=0.1 if tier == "quick" else 0.03, max_ops=1, chunk_time=40 if tier == "quick" else 120),
+                     shuffle=False)
+    agg2 = R.merge(res)
+    agg = merge2(agg1, agg2)
+    return report_multi("C07", {HE.HNAME: agg1, HC.HNAME: agg2}, agg, tier, seed, t0, dict(pipeline=EDIT_BOUNDS,
+                        conforming_programs=dict(instances=n, micro_skeletons=True, symbolic="identifier / constant / literal slots, <= 1 operator slot"),
+                        monitor="test-side wrapper around Context.pop_tokens: (jump, tokens before, len(history), first token column/line, last token "
+                                "type, scope class and level) per main-loop iteration",
+                        asserted=["every iteration consumes >= 1 token", "segments are consecutive and cover the stream when run() returns",
+                                  "an unrecognised token (pop_tokens(1) without a matching rule) makes the run end with CParsingError when debug == 0 "
+                                  "-- also when it is the last thing in a file without trailing newline",
+                                  "conforming programs: one statement per generated line, each starting at column 1 and ending with NEWLINE; scope is "
+                                  "GlobalScope (level 0) after each function's closing brace and never GlobalScope inside a function body"]),
+                        PIPE_FUNCS, ["a statement is 'unrecognised' iff pop_tokens is called without a new history entry"])
 
 
 @register("C06")
